@@ -27,7 +27,7 @@ ANCHORS = ['converters:TaggedUnionConverter.try_convert', 'converters:TaggedUnio
            'converters:DictConverter.try_convert', 'converters:SequenceConverter.try_convert',
            'converters:StructConverter.into_data', 'classes:PaneConverter.into_data', 'convert:into_data', 'convert:convert']
 MIN_COUNTERS = {'quick': {'calls_checked': 30000, 'rejected_inputs_checked': 8000, 'tagged_inputs_checked': 500,
-                          'trap_carriers_used': 3000, 'keyed_inputs_checked': 5000, 'array_layouts_checked': 300, 'partial_instance_calls': 1000}}
+                          'trap_carriers_used': 3000, 'keyed_inputs_checked': 5000, 'array_layouts_checked': 300, 'partial_instance_calls': 1000, 'later_assignment_checks': 1500}}
 
 TRAPLOG = []
 ARMED = set()
@@ -336,3 +336,52 @@ def run(ctx):
         checked('from_data(user-converted, list)', i, Ty('any'), env.from_data, ([data, data], t.List[U]), {'custom': custom}, watch=[data])
 
     drive.for_each_case(ctx, 'user-converters', max(20, ctx.budget // 30), body_user_converters, gen=lambda c, r: Ty('int'))
+
+    # what the caller passed stays the caller's AFTER the call too: assigning fields on the instance a construction returned (or on a
+    # copy / replacement of an instance) is no business of the mapping, the set-fields record or the source instance that were passed
+    # in (round 11: the record object kept instead of copied). Only plain attribute assignment on the result is used - containers a
+    # type hands through (Any) may legitimately be shared, the instance's own record may not.
+    def body_later_assignment(i, rng, ty_unused, T_unused):
+        import copy as _copy
+        P = type(f"LA{next(_serial)}", (env.PaneBase,), {'__annotations__': {'a': int, 'items': t.List[int], 'n': int, 'z': str},
+                                                        'items': env.pfield(default_factory=list), 'n': 3, 'z': 'z', '__module__': __name__}, frozen=False)
+
+        def assign(x):
+            for name, val in rng.sample((('n', 9), ('z', 'changed'), ('items', [5]), ('a', 2)), rng.randint(1, 3)):
+                setattr(x, name, val)
+        d, s = {'a': 1, 'items': [1, 2]}, rng.choice(({'a'}, {'a', 'items'}, set()))
+        if rng.random() < 0.5:
+            d.pop('items')
+            s.discard('items')
+        makers = [('from_dict_unchecked(d, set_fields=s)', lambda: P.from_dict_unchecked(d, set_fields=s), [d, s]),
+                  ('from_dict_unchecked(d)', lambda: P.from_dict_unchecked(d), [d]),
+                  ('from_data(d)', lambda: P.from_data(d), [d]), ('Cls(**d)', lambda: P(**d), [d])]
+        for api, mk, watch in makers:
+            before = [fingerprint(w) for w in watch]
+            o = observe(mk)
+            if o.kind == 'value':
+                observe(assign, o.val)
+            ctx.count('later_assignment_checks')
+            ctx.case(('later-assignment', api, o.kind), nontrivial=True)
+            after = [fingerprint(w) for w in watch]
+            if before != after:
+                ctx.violation('input-untouched', 'later-assignment', i, {'api': api, 'then': 'fields assigned on the returned instance', 'argument_before': short(before, 400),
+                                                                         'argument_after': short(after, 400)}, mech=f"{api.split('(')[0]}:input-shared-with-the-instance")
+                return
+        src = rng.choice((lambda: P.from_data(d), lambda: P(a=1), lambda: P.from_dict_unchecked({'a': 1, 'items': [3]}, set_fields={'a'}), lambda: P(a=4, n=5)))()
+        for api, derive in (('copy.copy(x)', _copy.copy), ('copy.deepcopy(x)', _copy.deepcopy), ('x.__replace__()', lambda x: x.__replace__()),
+                            ('x.__replace__(a=7)', lambda x: x.__replace__(a=7)), ('convert(x, Cls)', lambda x: env.convert(x, P)), ('from_data(x.into_data())', lambda x: P.from_data(x.into_data()))):
+            image = lambda: (repr(src), repr(src.dict()), repr(sorted(src.dict(set_only=True).items(), key=repr)), repr(src.into_data()))
+            before = image()
+            o = observe(derive, src)
+            if o.kind == 'value' and o.val is not src:
+                observe(assign, o.val)
+            ctx.count('later_assignment_checks')
+            ctx.case(('later-assignment', api, o.kind), nontrivial=True)
+            after = image()
+            if before != after:
+                ctx.violation('input-untouched', 'later-assignment', i, {'api': api, 'then': 'fields assigned on the derived instance', 'source_before': short(before, 400),
+                                                                         'source_after': short(after, 400)}, mech=f"{api.split('(')[0]}:source-instance-shared-with-the-derived-one")
+                return
+
+    drive.for_each_case(ctx, 'later-assignment', 40, body_later_assignment, gen=lambda c, r: Ty('int'))
